@@ -77,6 +77,10 @@ class SVec:
         return f"SVec({self.elem})"
 
 
+class SArr(list):
+    """numpy array of statically known length: a list whose arithmetic is element-wise (np.array([...]))."""
+
+
 class SIdx:
     """np.argwhere(mask).flatten(): an index set = a mask vector."""
 
